@@ -2117,8 +2117,11 @@ func (p *Parser) doRedirect(s *Stmt) {
 	case Hdoc, DashHdoc:
 		old := p.quote
 		p.quote, p.forbidNested = hdocWord, true
-		p.heredocs = append(p.heredocs, r)
+		// Only register the here-document once its word is complete: lexing
+		// the word may cross a newline (e.g. a zsh subscript), which reads
+		// the bodies of all registered here-documents.
 		r.Word = p.followWordTok(token(r.Op), r.OpPos)
+		p.heredocs = append(p.heredocs, r)
 		p.quote, p.forbidNested = old, false
 		if p.tok == _Newl {
 			if len(p.accComs) > 0 {
